@@ -20,15 +20,19 @@ TEXT["C16"] = dict(
 )
 
 TEXT["C01"] = dict(
-    text="Theorems (Coq kernel, no axioms) over a branch-by-branch transcription of micro's walk/occurs/exts/unify/EqualO with explicit "
-         "recursion-depth fuel: on success the result is the old substitution with pairs appended, its solution set is exactly the set of "
-         "unifiers of the two terms compatible with the old bindings (unifier + most general), Fail implies no finite unifier exists, the goal "
-         "yields 0/1 states with the counter unchanged; stated for all terms, all substitutions and all fuel. The model is tied to the code on "
-         "every run by differential execution (unify, EqualO, walk, occurs, exts, walkStar through a verif-tagged export file) and an "
-         "independent reference-unifier oracle (verdict, unifier, most general up to renaming, earlier bindings kept, input not mutated).",
-    note="trusted: Coq kernel + vm_compute; harness interning of symbols; the reference unifier used as oracle; the hand model is tied by sampling. "
-         "Termination/acyclicity-preservation theorems (C01_total, C01_wf) are in UnifyWf.v when present",
-    technique="Coq proof (induction on fuel, solution-set semantics of triangular substitutions) + differential correspondence",
+    text="Theorems (Coq kernel, no axioms) over micro's walk/occurs/exts/unify/EqualO with explicit recursion-depth fuel: on success the result is the "
+         "old substitution with pairs appended, its solution set is exactly the set of unifiers of the two terms compatible with the old bindings "
+         "(unifier + most general), Fail implies no finite unifier exists, the goal yields 0/1 states with the counter unchanged, termination and "
+         "acyclicity preservation on consistent states; stated for all terms, all substitutions and all fuel. The functions are TRANSLATED from "
+         "micro/walk.go, exts.go, unify.go on every run (harness/cmd/genmicro: statement by statement into a result monad with out-of-fuel and panic "
+         "outcomes; nil dereference, Car/Cdr of an atom and index out of range are Panic) and proved equal to the readable model (C01_code_is_model), "
+         "so the theorems are about the text of /repo as it is now (C01_code_mgu, C01_code_fail, C01_code_total, C01_code_wf) and the code never "
+         "panics on any input (C01_code_never_panics). Second tie: differential execution of the real functions (unify, EqualO, walk, occurs, exts, "
+         "walkStar through a verif-tagged export file) against the model and an independent reference-unifier oracle (verdict, unifier, most "
+         "general up to renaming, earlier bindings kept, input not mutated); it is also the failing-input search when a changed source breaks the equivalence proof.",
+    note="trusted: Coq kernel + vm_compute; the translator genmicro and the primitives of GoLite.v (terms as an inductive type: a nil *SExpr is the empty list, "
+         "a variable is its Index, a nil and an empty slice are both []; reflect.DeepEqual on atoms is atom_eqb); harness interning of symbols; the reference unifier used as oracle",
+    technique="translation of the Go functions to Gallina on every run + Coq proof (equivalence with the model; induction on fuel, solution-set semantics of triangular substitutions) + differential correspondence",
 )
 
 _PROG_NOTE = ("trusted: Coq kernel + vm_compute; the harness's goal-AST interpreter (real combinators), its reference search and the Coq-side "
@@ -81,7 +85,8 @@ TEXT["C04"] = dict(
 TEXT["C08"] = dict(
     text="Theorems (Coq kernel, no axioms) over the model of micro's reifyS/ReifyIntVarFromState/MKReify/Run: the reified answer is the fully resolved query "
          "(no bound variable remains) with the k-th distinct unbound variable, left to right, replaced by _k (same variable same name); no variable leaks; "
-         "alpha-equivalent answers reify identically; reification terminates on consistent states; Run = map of reify over take. gomini part: GCore.v transcribes rewrite "
+         "alpha-equivalent answers reify identically; reification terminates on consistent states; Run = map of reify over take. walkStar, reifys and reifyS are translated from "
+         "micro/walk.go and micro/reify.go on every run (genmicro) and proved equal to the model, panic-free (C08_code_is_model, C08_code_reify_var). gomini part: GCore.v transcribes rewrite "
          "(walk, CastVar, reflecttools.Map) over the reflecttools value model of C18 - struct fields, slice elements, Go map values, interface-typed slots; C08g_code_resolved: "
          "nothing reachable in the answer through the containers Map descends into is a bound variable, unbound variables stay their own placeholders; C08g_code_kind: the answer has the "
          "kind of the walked query (never a bare key); C08g_resolved for the term encoding. Tie: differential execution of reifyS/Reify/Run; for gomini.Run the transcription (gunify over "
@@ -178,8 +183,11 @@ TEXT["C14"] = dict(
          "strconv oracles: each Scan consumes at least one byte and returns a real token, the literals partition the input, Parse never panics "
          "(no index out of range, gotoTab -1, short stack, wrong attribute type, empty literal), terminates within linear fuel, and accepts only "
          "token lists that sexpr.bnf's productions generate, with exactly the tree of the semantic actions (C14_safe_sound). The other direction "
-         "(every sentence is accepted; the DFA equals the token regular expressions) is proved for the parser where C14_complete is present, and "
-         "otherwise decided by the correspondence: sexpr.Parse / lexer.Scan against the table drivers AND against an independent "
+         "is proved too: every sentence is accepted with the grammar's tree (C14_complete, LR(1) item-set validator + simulation; C14_exact, "
+         "C14_unambiguous), and the DFA of the tables cuts every byte string into exactly the tokens of sexpr.bnf's token regular expressions "
+         "(C14_lexer_is_grammar: a computed bisimulation certificate between DFA states and vectors of Brzozowski derivatives, validated on one "
+         "representative per character class and lifted to all runes; C14_exact_bnf combines both levels with no table in the statement). "
+         "The tie to the code: sexpr.Parse / lexer.Scan against the table drivers AND against the "
          "regular-expression lexer + recursive descent derived from sexpr.bnf, on grammar sentences, single edits, random bytes with invalid "
          "UTF-8 and all short strings over the token alphabet. The generator-conformance clause is decided by rebuilding gocc offline, "
          "regenerating from sexpr.bnf and diffing.",
